@@ -1623,7 +1623,7 @@ def gen_exhaustive_its():
 
 def _rand_its(rng, n, kind):
     ids = rng.sample(range(0, max(40, 2 * n)), n)
-    els = [rng.choice(("C", "C", "H", "H", "O", "N")) for _ in range(n)]
+    els = [rng.choice(("C", "C", "H", "H", "O", "N", "C", "H", "Hg", "He")) for _ in range(n)]      # Hg / He: not hydrogens
     nodes = []
     extras = rng.random() < 0.5
     for i, el in zip(ids, els):
@@ -1849,6 +1849,19 @@ def gen_big(rng, tier):
     gs = [_big_its(rng, rng.randint(22, 40)) for _ in range(6)]
     for _ in range(6 if q else 30):
         cases.append(dict(kind="list-big", Is=[rng.choice(gs) for _ in range(rng.randint(2, 4))], k=rng.choice((1, 2, 3))))
+    # round 5: LONG lists (>= 10 and >= 25 reaction dicts) of small graphs, and radii >= 10 that matter (chains of 30-45 atoms with
+    # the changed bond at one end: context(k) has exactly k + 2 atoms)
+    small = [c["I"] for c in gen_random_its(rng, 12, "its-rand", maxn=6)]
+    for n_el in ((12, 27) if q else (10, 12, 16, 27, 40, 64)):
+        cases.append(dict(kind="list-long", Is=[rng.choice(small) for _ in range(n_el)], k=rng.choice((0, 1, 2))))
+    for _ in range(4 if q else 20):
+        n = rng.randint(30, 45)
+        ids = rng.sample(range(1, 400), n)
+        chain = {"nodes": [[i, its_node(i, rng.choice(("C", "C", "N", "O")))] for i in ids],
+                 "edges": [[ids[0], ids[1], its_edge(1, 2)]] + [[ids[j], ids[j + 1], its_edge(1, 1)] for j in range(1, n - 1)]}
+        rng.shuffle(chain["nodes"])
+        cases.append(dict(kind="help-chain", I=chain, helpers=[9, 10, 11, rng.randint(12, 29), 30]))
+        cases.append(dict(kind="lre-chain", I=X.canon(chain), lre=True))
     return cases
 
 
